@@ -193,6 +193,14 @@ def load_3MF(file_obj, postprocess=True, **kwargs):
         for gid, tf in group:
             g.add_edge(start, gid, matrix=tf)
 
+    # components which contain themselves, directly or through other
+    # components, can't be flattened: a walk along them never reaches a
+    # leaf and the traversal copies an ever-longer path on every step
+    if "world" in g and not nx.is_directed_acyclic_graph(
+        g.subgraph(nx.descendants(g, "world"))
+    ):
+        raise ValueError("3MF components reference each other in a cycle!")
+
     # turn the graph into kwargs for a scene graph
     # flatten the scene structure and simplify to
     # a single unique node per instance
